@@ -1,1 +1,68 @@
-From ZV Require Import Lib.Base Lib.WireTypes Model.Wire Model.WireGen Proofs.Wire.
+(** C24 - the generic theorems instantiated with the tables generated from /repo's current sources.
+    The side conditions are closed boolean computations over Generated/ProtoFields.v. *)
+From ZV Require Import Lib.Base Lib.WireTypes Model.Wire Model.WireGen Proofs.Wire Generated.ProtoFields.
+From Coq Require Import String.
+
+(** every generated table passes the check (value independent: the regexp oracle is not consulted) *)
+Lemma gen_env_ok : forall rn, env_ok (gen_env rn) = true.
+Proof. intros rn. vm_compute. reflexivity. Qed.
+
+Lemma gen_from_safe : forall rn, from_safe (gen_env rn) = true.
+Proof. intros rn. vm_compute. reflexivity. Qed.
+
+Lemma gen_qkinds_covered : qkinds_covered = true.
+Proof. vm_compute. reflexivity. Qed.
+
+(** the exclusions that are actually used are exactly the named ones *)
+Lemma gen_unmapped_fields :
+  flat_map (fun nt => map (fun r => (fst nt, r_dst r))
+                          (filter (fun r => match r_src r with None => true | Some _ => false end) (t_from (snd nt))))
+           pf_tables
+  = [("zoekt.SearchOptions", "SpanContext"); ("zoekt.SearchResult", "RepoURLs"); ("zoekt.SearchResult", "LineFragments")]%string.
+Proof. vm_compute. reflexivity. Qed.
+
+Theorem gen_record_roundtrip : forall rn n t fs,
+  lookup n pf_tables = Some t ->
+  dom_b (gen_env rn) (CRec true false n) (CRec false false n) (VR fs) = true ->
+  exists w, apply (gen_env rn) (CRec true false n) (VR fs) = Ok w /\
+            apply (gen_env rn) (CRec false false n) w
+            = Ok (VR (mask_excl (excl_of (gen_env rn) n) (t_from t) fs)).
+Proof. intros rn n t fs Ht Hd. apply (record_roundtrip _ (gen_env_ok rn) n t fs false false Ht Hd). Qed.
+
+Theorem gen_query_roundtrip : forall rn q,
+  dom_b (gen_env rn) CQTo CQFrom q = true ->
+  exists w, apply (gen_env rn) CQTo q = Ok w /\ apply (gen_env rn) CQFrom w = Ok q.
+Proof. intros rn q Hd. apply (roundtrip_all _ (gen_env_ok rn) q CQTo CQFrom eq_refl Hd). Qed.
+
+Theorem gen_handlers_total : forall rn search list,
+  (forall q o w, o <> VNil -> search q o <> Panic w) ->
+  (forall q o w, list q o <> Panic w) ->
+  forall h req, wire_wf req = true ->
+  forall w, handle (gen_env rn) search list handler_defaults_nil_opts h req <> Panic w.
+Proof.
+  intros rn search list Hs Hl h req Hwf w.
+  apply (handlers_total (gen_env rn) search list (gen_from_safe rn) Hs Hl h req Hwf w).
+Qed.
+
+(** What the repairs 5dbbb25 / fe94a82 changed, replayed on the model: with the pre-repair flags
+    (QFromProto reads p.Query directly and panics in its default case; nil options are passed on)
+    a request without query, and a request without options, crash the handler. *)
+Definition pre_repair_env (rn : list N -> option (list N)) : env :=
+  Env pf_tables pf_qto pf_qfrom pf_qto_default_panics false true c24_exclusions rn.
+
+Lemma pre_repair_unset_query_panics :
+  handle (pre_repair_env (fun s => Some s)) ok_streamer ok_streamer false 0 (VR [("Query"%string, VNil); ("Opts"%string, VNil)])
+  = Panic P_NIL.
+Proof. vm_compute. reflexivity. Qed.
+
+Lemma pre_repair_childless_not_panics :
+  handle (pre_repair_env (fun s => Some s)) ok_streamer ok_streamer false 2
+         (VR [("Query"%string, VQ "Q_Not" (VR [("Child"%string, VNil)])); ("Opts"%string, VNil)])
+  = Panic P_NIL.
+Proof. vm_compute. reflexivity. Qed.
+
+Lemma pre_repair_nil_opts_panics :
+  handle (gen_env (fun s => Some s)) ok_streamer ok_streamer false 0
+         (VR [("Query"%string, VQ "Q_Const" (VB true)); ("Opts"%string, VNil)])
+  = Panic P_NIL.
+Proof. vm_compute. reflexivity. Qed.
